@@ -67,6 +67,6 @@ impl Area for TimerArea {
             outs.push(format!("shared={} parent={}", shared, par));
         }
         stats.seen(lines, ended >= 2);
-        ExecOut { outs, fails }
+        ExecOut { outs, fails, model_lines: None }
     }
 }
